@@ -3543,6 +3543,20 @@ M('C11', 'escape-after-newline-lookbehind', PGP, _ESC, "        return re.sub(r'
 M('C11', 'unescape-after-cr-or-lf', PGP, _UNE, "        return re.sub(r'(?:^|(?<=[\\r\\n]))- ', '', text)", 'C11.1')
 M('C11', 'escape-split-on-crlf', PGP, _ESC, "        return '\\r\\n'.join(('- ' + line if line.startswith('-') else line) for line in text.split('\\r\\n'))", 'C11.1')
 
+# ---- C11 wave-4 lessons: fast paths that return the text untouched, replacement callables
+T('C11', 'twin-dash-fast-paths-callable-replacement', PGP, _ESC, "        if type(text) is str and '-' not in text:\n            return text\n\n        return re.subn(r'^-', lambda m: '- ' + m.group(0), text, flags=re.MULTILINE)[0]",
+  more=[(PGP, _UNE, "        if type(text) is str and '- ' not in text:\n            return text\n\n        return re.subn(r'^- ', '', text, count=0, flags=re.MULTILINE)[0]")])
+T('C11', 'twin-dash-new-defaulted-parameters', PGP, "    def dash_escape(text):\n" + _ESC, "    def dash_escape(text, prefix='- '):\n        if type(text) is str and '-' not in text:\n            return text\n\n        return re.subn(r'^-', lambda m: prefix + m.group(0), text, flags=re.MULTILINE)[0]",
+  more=[(PGP, "    def dash_unescape(text):\n" + _UNE, "    def dash_unescape(text, count=0):\n        if '-' in text:\n            return re.subn(r'^- ', '', text, count=count, flags=re.MULTILINE)[0]\n        return text")])
+M('C11', 'escape-fast-path-first-character-only', PGP, _ESC, "        if not text.startswith('-'):\n            return text\n\n        return re.subn(r'^-', '- -', text, flags=re.MULTILINE)[0]", 'C11.1')
+M('C11', 'escape-fast-path-no-five-dashes', PGP, _ESC, "        if '-----' not in text:\n            return text\n\n        return re.subn(r'^-', '- -', text, flags=re.MULTILINE)[0]", 'C11.1')
+M('C11', 'unescape-fast-path-no-dash-dash', PGP, _UNE, "        if '- -' not in text:\n            return text\n\n        return re.subn(r'^- ', '', text, flags=re.MULTILINE)[0]", 'C11.1')
+M('C11', 'escape-fast-path-inverted', PGP, _ESC, "        if '-' in text:\n            return text\n\n        return re.subn(r'^-', '- -', text, flags=re.MULTILINE)[0]", 'C11.1')
+M('C11', 'escape-callable-drops-the-dash', PGP, _ESC, "        return re.subn(r'^-', lambda m: '- ', text, flags=re.MULTILINE)[0]", 'C11.1')
+M('C11', 'escape-callable-wrong-prefix', PGP, _ESC, "        return re.subn(r'^-', lambda m: '-' + m.group(0), text, flags=re.MULTILINE)[0]", 'C11.1')
+M('C11', 'hashdata-fast-path-no-crlf', PGP, "            _data += re.subn(br'\\r?\\n', b'\\r\\n', subject)[0]", "            if b'\\r\\n' not in subject:\n                _data += subject\n            else:\n                _data += re.subn(br'\\r?\\n', b'\\r\\n', subject)[0]", 'C11.4')
+T('C11', 'twin-hashdata-fast-path-no-lf', PGP, "            _data += re.subn(br'\\r?\\n', b'\\r\\n', subject)[0]", "            if isinstance(subject, (bytes, bytearray)) and b'\\n' not in subject:\n                _data += subject\n            else:\n                _data += re.subn(br'\\r?\\n', b'\\r\\n', subject)[0]")
+
 # =============================================================================================== C09
 M('C09', 'enc-191', TY, "            if 192 > nl:\n                return Header.int_to_bytes(nl)", "            if 191 > nl:\n                return Header.int_to_bytes(nl)", 'C09.1')
 M('C09', 'enc-8383', TY, "            elif 8384 > nl:\n                elen", "            elif 8383 > nl:\n                elen", 'C09.1')
